@@ -37,9 +37,13 @@ def getLine (id : String) (ref q : List Nat) : UDLine :=
 
 def fmtAmb (a : Nat × Nat) : String := if a.1 = a.2 then itoa a.1 else itoa a.1 ++ "-" ++ itoa a.2
 
+/-- csvField: an ID containing a comma, a double quote or a line break is written as a quoted CSV field -/
+def csvField (s : String) : String :=
+  if s.any (fun c => c == ',' || c == '"' || c == '\r' || c == '\n') then "\"" ++ s.replace "\"" "\"\"" ++ "\"" else s
+
 /-- one row of updown/list.writeOutput -/
 def udRow (l : UDLine) : String :=
-  l.id ++ "," ++ joinWith "|" (l.snps.map fmtSnp) ++ "," ++ joinWith "|" (l.ambs.map fmtAmb) ++ "," ++
+  csvField l.id ++ "," ++ joinWith "|" (l.snps.map fmtSnp) ++ "," ++ joinWith "|" (l.ambs.map fmtAmb) ++ "," ++
     itoa l.snpCount ++ "," ++ itoa l.ambCount ++ "\n"
 
 def udListOutput (ref : List Nat) (recs : List (String × List Nat)) : String :=
